@@ -591,7 +591,10 @@ def run_case(case):
             exc = e
         trace = list(U.TRACE)
         if stage == "history":
-            raise RuntimeError(f"harness: building the detector history failed: {exc!r}")
+            # the history run is itself a real exposure with a valid schedule ([1,2,4], start 0.5, non-destructive)
+            bad("valid-rejected", f"the preparatory run (times=[1,2,4], start=0.5, non-destructive, all buckets "
+                f"written) raised {type(exc).__name__}: {str(exc)[:200]}", stage="history")
+            return {"viol": viol, "sig": cfgx.sig(["history-failed"]), "nontrivial": True, "n": 1}
 
         if rep == "expr":
             times = [float(x) for x in eval(case["expr"], {"numpy": np}, {})]      # reference: numpy itself
